@@ -14,7 +14,13 @@ func init() {
 		c18(r)
 		r.Guard("C18.R9", "every lock taken is released on every exit: the shaping locks", func() {
 			lockPairRule(r, "trafficshape")
-			guardedFieldsRule(r, "trafficshape", "urlShapes", "RWMutex", []string{"M", "LastModifiedTime"}, "a connection looks a shape up while a reconfiguration replaces the table")
+			shapesT := "urlShapes"
+			if fo := structField(r.W.Named("trafficshape", "Listener"), "Shapes"); fo != nil {
+				if n := namedOf(fo.Type()); n != "" {
+					shapesT = n // whatever the table type is called
+				}
+			}
+			guardedFieldsRule(r, "trafficshape", shapesT, "RWMutex", []string{"M", "LastModifiedTime"}, "a connection looks a shape up while a reconfiguration replaces the table")
 			guardedFieldsRule(r, "trafficshape", "Listener", "mu", []string{"defaults", "latency"}, "a connection being accepted reads a half-updated default while a configuration is being installed")
 		})
 	}
@@ -406,11 +412,13 @@ func c18(r *Report) {
 				})
 				rejects := false
 				if okD && out != nil {
-					if ret, isRet := out.Instrs[len(out.Instrs)-1].(*ssa.Return); isRet {
-						for _, l := range resolveAll(ret.Results[len(ret.Results)-1]) {
-							if isFreshErr(l) {
-								rejects = true
-							}
+					// every feasible way on from the outcome returns an error (directly, or through
+					// the result variable of an inlined helper)
+					vals, _, okp := returnValuesFrom(out, ps.Signature.Results().Len()-1)
+					rejects = okp && len(vals) > 0
+					for _, l := range vals {
+						if !isFreshErr(l) {
+							rejects = false
 						}
 					}
 				}
@@ -807,6 +815,25 @@ func c18(r *Report) {
 		r.Paths++
 		r.Decide("path", "(*M.Proxy).handle: shaping context reset per response", ok, "Context = &trafficshape.Context{} precedes the URL matching and the write on every path", "a response that matches no shape can be written with its predecessor's shaping context", ta.Pos())
 
+		// GetRangeStart tells "not a range" (0) from "a range this proxy cannot position" (-1)
+		if grs := r.Use("proxyutil", "GetRangeStart"); grs != nil {
+			neg, zero, other := 0, 0, 0
+			for _, ret := range returns(grs) {
+				for _, l := range resolveAll(ret.Results[0]) {
+					if k, isK := constInt(l); isK {
+						switch k {
+						case -1:
+							neg++
+						case 0:
+							zero++
+						default:
+							other++
+						}
+					}
+				}
+			}
+			r.Decide("table", "M/proxyutil.GetRangeStart: -1 for multipart, unparseable and unmatched ranges, 0 only for a response that is not partial", neg >= 3 && zero == 1 && other == 0, fmt.Sprintf("%d returns of -1, %d of 0", neg, zero), "an arm that must report \"cannot position\" (-1) reports something else: the response is shaped as if it started at that byte", grs.Pos())
+		}
 		// the context of a matching response is what the shape says: taken for a valid single
 		// range only, positioned at the range start, with the next action and the throttle
 		// looked up at that byte, and the bucket set to the throttle's bandwidth when the
